@@ -6,7 +6,11 @@ HOOK_COMMITS = ["d85c6ee", "170bde9", "43ffa35", "8043914", "4c6f2d6", "8d2eb59"
 
 # id -> (engine, category, technique, level text, level note, design ref)
 CHECKS = {
- "C02": ("E1-simnet-explorer", "model_checking",
+ "C06": ("E1-simnet-explorer", "model_checking",
+   "exhaustive enumeration of call overlaps and deviation-bounded exploration of fault schedules on a real node over a simulated network; completion oracle at a virtual-time horizon",
+   "A real node with three peers: every ordered pair of the 13 API calls with the second placed before every network event of the first and inside/outside the cache window; every single call under every single (thorough: pair of) dropped / duplicated / late datagram and every peer failure point, against scripted and against real server peers; unread sync iterators held open. Every call must resolve exactly once within 120 virtual seconds and the actor must survive.",
+   "Latency 10 ms, late = 900 ms; three peers.", "DESIGN.md section 6, C06"),
+  "C02": ("E1-simnet-explorer", "model_checking",
    "exhaustive enumeration of Byzantine answer assignments and arrival orders against a real reader node over a simulated network, independent re-verification of everything the API surfaces",
    "A real node runs every lookup API over 3 scripted endpoints; every assignment of a forgery-menu answer (8-10 classes incl. type confusion, other key, other salt, replay from the other slot, bit flips) to every endpoint in every arrival order is executed, alone and with a second caller (or the node's own put) sharing the still-active lookup; each surfaced element is re-verified with sha1/ed25519 by the harness.",
    "Forgery classes rather than all byte strings; oracle trusts sha1_smol and ed25519-dalek verification.", "DESIGN.md section 6, C02"),
